@@ -1,7 +1,14 @@
-import Tahoe.Storage.Slot
-/-! C23 — mutable share containers behave like byte arrays (property theorems). -/
+import Tahoe.Storage.LemmasSlot
+/-!
+C23 — mutable share containers behave like byte arrays (property theorems only; helper lemmas are in
+`Tahoe/Storage/Lemmas{Mutable,Lease,Slot}.lean`).
+
+Model: `Tahoe/Storage/Mutable.lean` (container file, byte-exact), `Tahoe/Storage/Slot.lean` (server calls).
+Specification: `Tahoe/Storage/Spec.lean`, `SlotSpec.lean` (a share = a growable byte array; a storage
+index = a finite map of such arrays).  `absData f = pread f 468 (dataLength f)` is the abstraction.
+-/
 namespace Tahoe.C23
-open Tahoe.Base.File Tahoe.Storage Tahoe.Storage.Mutable Tahoe.Generated.Storage
+open Tahoe.Base.File Tahoe.Storage Tahoe.Storage.Mutable Tahoe.Storage.Slot Tahoe.Generated.Storage
 
 /-- the layout numbers written as literals in `Tahoe/Storage/Mutable.lean` are the values of the source -/
 theorem layout_constants :
@@ -9,6 +16,158 @@ theorem layout_constants :
     mut_DATA_OFFSET = 468 ∧ mut_HEADER_FORMAT = ">32s20s32sQQ" ∧ lease_MUTABLE_FORMAT = ">LL32s32s20s" ∧
     lease_MUTABLE_SIZE = 92 ∧ mut_INITIAL_EXTRA_LEASE_OFFSET = 468 ∧ mut_INITIAL_FILE_SIZE = 472 ∧
     mut_NEWEST_SCHEMA_VERSION = 2 ∧ mut_MAGIC_V1.length = 32 ∧ mut_MAGIC_V2.length = 32 ∧
-    mut_MAGIC_V1 ≠ mut_MAGIC_V2 := by decide
+    mut_MAGIC_V1 ≠ mut_MAGIC_V2 ∧ 468 + mut_MAX_SIZE < 2 ^ 64 := by decide
+
+/-! ### the invariant `WF` is established by `create` and preserved by every operation -/
+
+/-- `WF` (data region below the extra-lease block, container ≤ MAX_SIZE, file holds the whole lease
+    block) holds for a new container and is preserved by `writev` (even when it raises half-way),
+    `add_lease`, `renew_lease` and `add_or_renew_lease`, for any arguments -/
+theorem wf_preserved :
+    (∀ s nodeid we, WF (create s nodeid we)) ∧
+    (∀ f dv nl, WF f → WF (writev f dv nl).1) ∧
+    (∀ f avail l, WF f → WF (addLease f avail l).1) ∧
+    (∀ h f secret t, WF f → WF (renewLease h f secret t).1) ∧
+    (∀ h f avail li, WF f → WF (addOrRenew h f avail li).1) :=
+  ⟨create_wf, fun f dv nl h => (writev_any f h dv nl).1, fun f a l h => (addLease_spec f h a l).wf,
+   fun h f s t w => (renewLease_spec h f w s t).wf, fun h f a li w => (addOrRenew_spec h f w a li).wf⟩
+
+example : WF (create .v2 (zeros 20) (zeros 32)) := create_wf _ _ _
+
+/-- every state reachable from the empty storage index by any history of requests is well formed -/
+theorem reachable_wf (qs : List Req) : BucketWF (runAll [] qs) := by
+  suffices h : ∀ b, BucketWF b → BucketWF (runAll b qs) from h [] BucketWF.nil
+  induction qs with
+  | nil => intro b hb; exact hb
+  | cons q rest ih => intro b hb; exact ih _ (rtw_wf b hb q)
+
+/-! ### refinement to byte arrays -/
+
+/-- container level: `readv` is the clipped read and `check_testv` the comparison on the byte array;
+    `writev` whose vectors fit below MAX_SIZE succeeds and is the byte-array `writev`: the gap past
+    the end is zero-filled (also for an empty write beyond the end, see the example), a smaller
+    `new_length` truncates, a larger one is ignored -/
+theorem writev_refines (f : File) (hwf : WF f) (dv : List (Nat × Bytes)) (nl : Option Nat) (hfit : FitsAll dv)
+    (rv : List (Nat × Nat)) (tv : List (Nat × Nat × Bytes)) :
+    readv f rv = Spec.readv (absData f) rv ∧
+    checkTestv f tv = Spec.testv (absData f) tv ∧
+    (writev f dv nl).2 = none ∧
+    absData (writev f dv nl).1 = Spec.writev (absData f) dv nl := by
+  obtain ⟨f', e, _, d, _⟩ := writev_ok f hwf dv nl hfit
+  exact ⟨readv_eq f rv, checkTestv_eq f tv, by rw [e], by rw [e]; exact d⟩
+
+example : Spec.writev [1, 2, 3] [(5, [])] none = [1, 2, 3, 0, 0] := by decide
+example : Spec.writev [1, 2, 3] [(5, [9])] (some 4) = [1, 2, 3, 0] := by decide
+example : Spec.writev [1, 2, 3] [(1, [9])] (some 7) = [1, 9, 3] := by decide
+example : Spec.readv [1, 2, 3] [(1, 5), (7, 2)] = [[2, 3], []] := by decide
+
+/-- `slot_readv` reads the byte arrays (clipped), for the selected shares -/
+theorem slot_readv_refines (b : Bucket) (shares : List Nat) (rv : List (Nat × Nat)) :
+    slotReadv b shares rv = Spec.slotReadv (absBucket b) shares rv := by
+  simp only [slotReadv, Spec.slotReadv, absBucket, List.filter_map, List.map_map, Function.comp_def, readv_eq]
+
+/-- **refines_bytearray** (server level, repaired server): in every reachable state, a request that
+    returns normally answers exactly as the byte-array specification does — the test verdict is the
+    comparison against the current arrays (a missing share reads as empty), the read data are clipped
+    reads of the arrays BEFORE the request, and afterwards the arrays are those of the specification:
+    every write vector spliced in with zero fill, `new_length` applied, `new_length = 0` deleting the
+    share; unchanged when a test failed.  Together with `reachable_wf` and `slot_readv_refines` this is
+    the simulation of all request histories by the finite map of growable byte arrays. -/
+theorem refines_bytearray (qs : List Req) (q : Req) (hfix : q.env.precheck = true)
+    (g : Bool) (reads : List (Nat × List Bytes))
+    (hout : (q.run (runAll [] qs)).out = .ok (g, reads)) :
+    g = Spec.evalTests (absBucket (runAll [] qs)) q.tw ∧
+    reads = Spec.evalReads (absBucket (runAll [] qs)) q.rv ∧
+    absBucket (q.run (runAll [] qs)).bucket =
+      (if g then Spec.evalWrites (absBucket (runAll [] qs)) q.tw else absBucket (runAll [] qs)) := by
+  have hb := reachable_wf qs
+  generalize runAll [] qs = b at *
+  unfold Req.run rtw at hout ⊢
+  rw [← evalTests_eq, ← evalReads_eq]
+  split at hout
+  · simp at hout
+  · rename_i hc
+    by_cases hg : evalTests b q.tw
+    · simp only [hg, Bool.not_true, Bool.false_eq_true, if_false, hfix, Bool.true_and] at hout ⊢
+      by_cases hs : sizesOk q.tw
+      · simp only [hs, Bool.not_true, Bool.false_eq_true, if_false] at hout ⊢
+        obtain ⟨b1, rem, e, w1, a1⟩ := evalWrites_ok q.env.nodeid q.we q.tw b [] hb ((sizesOk_iff _).mp hs)
+        simp only [e] at hout ⊢
+        by_cases hr : q.renewLeases
+        · simp only [hr, Bool.not_true, Bool.false_eq_true, if_false] at hout ⊢
+          have ha := (renewShares_abs q.env (makeLease q.env q.renew q.cancel) rem b1 w1).2
+          generalize renewShares q.env (makeLease q.env q.renew q.cancel) b1 rem = r at *
+          obtain ⟨b2, e2⟩ := r
+          cases e2 with
+          | some e2 => simp at hout
+          | none =>
+            simp only [Except.ok.injEq, Prod.mk.injEq] at hout
+            obtain ⟨rfl, rfl⟩ := hout
+            simp only [if_true]
+            exact ⟨trivial, trivial, ha.trans a1⟩
+        · simp only [hr, Bool.not_false, if_true, Except.ok.injEq, Prod.mk.injEq] at hout ⊢
+          obtain ⟨rfl, rfl⟩ := hout
+          simp only [if_true]
+          exact ⟨trivial, trivial, a1⟩
+      · simp [hs] at hout
+    · simp only [hg, Bool.not_false, if_true, Except.ok.injEq, Prod.mk.injEq] at hout ⊢
+      obtain ⟨rfl, rfl⟩ := hout
+      simp
+
+/-! ### truncation never exposes stale bytes -/
+
+/-- after truncating to `n`, any later write at `off ≥ n` that extends the share exposes only zeros
+    in `[n, off)` — never the bytes that were there before the truncation (they are still in the file) -/
+theorem truncate_then_extend_zero (f : File) (hwf : WF f) (n off : Nat) (d : Bytes)
+    (hn : n ≤ dataLength f) (hoff : n ≤ off) (hfit : off + d.length ≤ MAX_SIZE) :
+    let f1 := (writev f [] (some n)).1
+    (writev f1 [(off, d)] none).2 = none ∧
+    readShareData (writev f1 [(off, d)] none).1 n (off - n) = zeros (off - n) := by
+  intro f1
+  have h1 := writev_refines f hwf [] (some n) (fun _ h => by simp at h) [] []
+  have wf1 : WF f1 := (writev_any f hwf [] (some n)).1
+  have hfit' : FitsAll [(off, d)] := by
+    intro p hp; simp only [List.mem_singleton] at hp; subst hp; exact hfit
+  have h2 := writev_refines f1 wf1 [(off, d)] none hfit' [] []
+  refine ⟨h2.2.2.1, ?_⟩
+  rw [readShareData_eq, h2.2.2.2, h1.2.2.2]
+  have hal := length_absData hwf
+  simp only [Spec.writev, Spec.writeAll, Spec.newLength, List.foldl_nil, List.foldl_cons, hal, Spec.read]
+  have hlen : (if n < dataLength f then (absData f).take n else absData f).length = n := by
+    split <;> simp [hal] <;> omega
+  generalize (if n < dataLength f then (absData f).take n else absData f) = a at *
+  apply List.ext_getElem?; intro i
+  rw [getElem?_pread, getElem?_splice, getElem?_zeros, hlen]
+  by_cases hi : i < off - n
+  · have a1 : n + i < off := by omega
+    have a2 : ¬ (n + i < n) := by omega
+    simp [hi, a1, a2]
+  · simp [hi]
+
+example : Spec.writev (Spec.writev [7, 7, 7, 7] [] (some 1)) [(3, [9])] none = [7, 0, 0, 9] := by decide
+example : WF (create .v2 (zeros 20) (zeros 32)) ∧ 0 ≤ dataLength (create .v2 (zeros 20) (zeros 32)) :=
+  ⟨create_wf _ _ _, Nat.zero_le _⟩
+
+/-! ### data operations never alter the leases -/
+
+/-- `writev` — any vectors, any `new_length`, container growth with relocation of the extra-lease
+    block, even a call that raises `DataTooLargeError` half-way — leaves the lease list (all four
+    header slots and any number of extra leases), the write enabler and the schema untouched -/
+theorem leases_unchanged_by_data_ops (f : File) (hwf : WF f) (dv : List (Nat × Bytes)) (nl : Option Nat) :
+    getLeases (writev f dv nl).1 = getLeases f ∧
+    enumerateLeases (writev f dv nl).1 = enumerateLeases f ∧
+    enabler (writev f dv nl).1 = enabler f ∧
+    schemaOf (writev f dv nl).1 = schemaOf f := by
+  have hm := (writev_any f hwf dv nl).2
+  refine ⟨getLeases_congr hm, enumerateLeases_congr hm, ?_, ?_⟩
+  · unfold enabler
+    have := congrArg (fun x => pread x 52 32) hm.hdr
+    simp only [pread_pread _ _ _ _ _ (show 52 + 32 ≤ 84 by omega)] at this
+    simpa using this
+  · unfold schemaOf
+    have := congrArg (fun x => pread x 0 32) hm.hdr
+    simp only [pread_pread _ _ _ _ _ (show 0 + 32 ≤ 84 by omega)] at this
+    simp only [Nat.add_zero] at this
+    rw [this]
 
 end Tahoe.C23
